@@ -320,6 +320,41 @@ CHECKS['C06']['text'] = (
     'deriv_sound_ufunc discharge it as leaves of (b). The leaf contract for Norm/Dist/ComplexModulus/PointwiseNorm/finite '
     'differences/functionals is established by the sampled central-difference oracle only.')
 
+CHECKS['C17']['text'] = (
+    'Proved for all methods, out tuples, shapes and dtypes on the decision model of the (repaired) code: out arity and kind '
+    'rejection; identity of out per position (tensor, discretized, legacy product-space); exact kind, shape, dtype and weighting '
+    'of the wrapped tensor result; discretized __call__/accumulate/reduce (all axes incl. negative)/outer result spaces; '
+    'operand-kind independence; legacy tables total (tensor and product-space wrappers, decide over the GENERATED tables); '
+    'no-copy wrapping; writable_array contract. Totality is full for constant weightings and partial otherwise: the one '
+    'exclusion is C17-F4 (array weighting with a dtype too narrow for float64 weights, open). Product-space limits (C17-F6, '
+    'open: no ProductSpaceElement.__array_ufunc__) are stated as theorems about the model. Numerical equality with NumPy is by '
+    'delegation, tested exhaustively (85k quick / 425k thorough), not proved.')
+CHECKS['C17']['note'] += (' Translator also ties wrap_ufunc_productspace and ProductSpaceUfuncs.sum/prod/min/max; every '
+                          'expected model branch must be hit (unhit_model_branches fails the thorough tier).')
+CHECKS['C03']['text'] = (
+    'Theorems (scalars: any type with commutative + and * and 0+a=a, so NaN/inf junk included; unbounded depth): call_protocol '
+    '(full), call_in_place, call_out_of_place, out_content_irrelevant, call_casts_input, call_rejects, call_functional for every '
+    'well-formed expression tree over the eight operator-arithmetic classes plus FunctionalLeftVectorMult, and '
+    'pso_out_of_place / pso_in_place / component_projection(_adjoint) for ProductSpaceOperator (arbitrary sparsity, empty rows) '
+    'hence Broadcast/Reduction/Diagonal, over leaves satisfying the leaf contract: op(x) returns the tree\'s value and writes '
+    'no existing object; op(x,out=y) returns y with the same value whatever y held; functionals and malformed arguments are '
+    'rejected with the domain/range/type error before any write. 198 of 216 introspected classes are opaque leaves whose '
+    'contract is established on sampled inputs only (test).')
+CHECKS['C03']['note'] += (' All six C03 findings are repaired in /repo (e5d6c3c, ab9b331, 4527a77, ac168e7, 631ee69+82e7c58, '
+                          '27b55a3); sensitivity theorems old_vector_sum_writes_input, functional_rejects_out.')
+CHECKS['C10']['text'] = CHECKS['C10']['text'].replace(
+    '(alias_safe_ieee: with no algebraic hypothesis for all but ProximalL2)',
+    '(for every scalar type, no arithmetic law used; combine_proximals covered by diagonal_alias_safe)')
+CHECKS['C14']['text'] = (
+    '30 theorems over Rat, all n: wf_iff_valid, bdry_ends, bdry_strict_mono, node_in_own_cell, cell_size_is_width, cell_sizes_sum '
+    '(all n >= 1), bdry_fraction_formula, uniform_node_placement, uniform_side_times_count (all 4 flag combos), index_correct '
+    '(+floating index), index_outside, getitem_slice/_cells/_int/_full/_list/_nd, byaxis_cells, squeeze_cells, '
+    'insert_append_cells, nonuniform_limits, fromgrid_limits, uniform_spec_agree, uniform_flags_agree (every flag form), '
+    'extracted_table_is_model (the node-placement table of uniform_grid_fromintv EXTRACTED from the AST each run equals the '
+    'model). Tested only: squeeze with an axis list, negative-step slices, out-of-range negative integers.')
+CHECKS['C14']['note'] += (' History stream: partitions sharing grid/IntervalProd objects with interleaved queries must answer '
+                          'like freshly built equal partitions. Findings C14-F1/F2 fixed in /repo (e9629b2, 56dfd19).')
+
 NOT_YET = {}
 
 
